@@ -179,6 +179,14 @@ func (x *Exec) callStatic(c *callCtx, callee *ssa.Function, ci *closureInfo) {
 		return
 	}
 	if x.prog.isPint(callee) && len(callee.Blocks) > 0 {
+		// a function that promises not to panic (`safe callee-panics`) may only call code without a contract if that code
+		// cannot reach an explicit panic / Must* call: what such a callee needs is then a contract, not trust
+		if c.fr.safe && c.fr.depth == 0 {
+			if why := x.prog.mayPanic(callee, map[*ssa.Function]bool{}, 0); why != "" {
+				x.safety(c.fr, c.n, "false", "callee-panics", c.instr.Pos(), callee.Name())
+				x.vc.note("%s: callee %s can reach %s", c.fr.fn.Name(), callee.Name(), why)
+			}
+		}
 		if x.canInline(c.fr, callee) {
 			x.inlineCall(c, callee, ci)
 			return
@@ -623,4 +631,40 @@ func (x *Exec) builtinAppend(c *callCtx) {
 		a, b := x.elemAt(h, nh, c.res[0].S, "i", es), x.elemAt(h, heap, s.S, "i", es)
 		n.assume(fmt.Sprintf("(forall ((i Int)) (! (=> (and (<= 0 i) (< i (s.len %s))) (= %s %s)) :pattern (%s) :pattern (%s)))", s.S, a, b, a, b))
 	}
+}
+
+
+// mayPanic: the function, or a pint function without a contract that it calls (transitively, statically), contains an
+// explicit panic or calls one of the listed Must-style dependency functions. Returns what it found ("" = nothing).
+func (p *Program) mayPanic(fn *ssa.Function, seen map[*ssa.Function]bool, depth int) string {
+	if fn == nil || seen[fn] || depth > 6 {
+		return ""
+	}
+	seen[fn] = true
+	for _, b := range fn.Blocks {
+		for _, in := range b.Instrs {
+			if pn, ok := in.(*ssa.Panic); ok {
+				return "panic at " + p.pos(pn.Pos())
+			}
+			ci, ok := in.(ssa.CallInstruction)
+			if !ok {
+				continue
+			}
+			callee := ci.Common().StaticCallee()
+			if callee == nil {
+				continue
+			}
+			name := calleeName(callee)
+			switch name {
+			case "regexp.MustCompile", "regexp.MustCompilePOSIX", "text/template.Must", "html/template.Must":
+				return name + " at " + p.pos(ci.Pos())
+			}
+			if p.isPint(callee) && len(callee.Blocks) > 0 && p.contractFor(callee) == nil {
+				if why := p.mayPanic(callee, seen, depth+1); why != "" {
+					return why
+				}
+			}
+		}
+	}
+	return ""
 }
